@@ -35,12 +35,11 @@ class TableTarget:
     """log-density / drift given by a table keyed by the exact lattice position (spec rows); off the lattice a smooth
     finite fallback (any function is a legitimate target).  Every evaluation point is logged."""
 
-    def __init__(self, d, rows, offset=0.0):
+    def __init__(self, d, rows):
         self.d = d
         self.tab = {tuple(int(q) for q in r["p"]): (ext(r["t"]), vec(r["g"])) for r in rows}
         self.evals = []
         self.gevals = []
-        self.offset = offset
 
     def key(self, x):
         x = np.asarray(x, dtype=float).reshape(-1)
@@ -49,7 +48,8 @@ class TableTarget:
         r = np.rint(x)
         if np.max(np.abs(x - r)) > 1e-9:
             return None
-        return self.tab.get(tuple(int(q) for q in r)) and tuple(int(q) for q in r)
+        k = tuple(int(q) for q in r)
+        return k if k in self.tab else None
 
     def logpdf(self, x):
         xx = np.array(x, dtype=float).reshape(-1)
@@ -57,7 +57,7 @@ class TableTarget:
         k = self.key(xx)
         if k is None:
             return -0.5 * float(xx @ xx) - 1.0
-        return self.tab[k][0] + self.offset
+        return self.tab[k][0]
 
     def gradient(self, x):
         xx = np.array(x, dtype=float).reshape(-1)
@@ -93,11 +93,14 @@ def build_target(cfg, rows, real="user"):
         return cuqi.distribution.UserDefinedDistribution(dim=d, logpdf_func=lp, gradient_func=gr), T, 0.0
     prior = cuqi.distribution.Gaussian(float(cfg["m"]) * np.ones(d), 1.0)
     if real == "gauss":
-        model = cuqi.model.LinearModel(np.eye(1))
+        def fwd(x):
+            T.evals.append(np.array(x, dtype=float).reshape(-1).copy())
+            return x
+        model = cuqi.model.Model(fwd, range_geometry=1, domain_geometry=1)
         var = 2.0 / 3.0
         lik = cuqi.distribution.Gaussian(mean=model, cov=var).to_likelihood(np.array([1.0]))
         const = -0.5 * math.log(2 * math.pi * var)
-        return cuqi.distribution.Posterior(lik, prior), None, const
+        return cuqi.distribution.Posterior(lik, prior), T, const
     lik = cuqi.likelihood.UserDefinedLikelihood(dim=d, logpdf_func=lp, gradient_func=gr)
     if real == "tuple":
         return (lik, prior), T, 0.0
@@ -334,7 +337,8 @@ def run_behaviour(ctx, beh, rows, sv0, root, real="user", sigprefix="replay", sa
         return True
 
     cur_sv = sv0
-    if not compare(expect_state(root, sv0), "init", "after initialisation", -1):
+    prev_exp = expect_state(root, sv0)
+    if not compare(prev_exp, "init", "after initialisation", -1):
         return 0
     items = split_transitions(beh["prog"])
     done = 0
